@@ -150,8 +150,11 @@ def exec_job(job):
         elif job["kind"] == "agree":
             out = [call_distance(nm, arg(nm), mode, arg("distance_wei"))[0] for nm in job["routines"]]
         elif base == "charpath":
-            Din = bct.distance_bin(arg("distance_bin")()) if job["src"] == "distance_bin" else \
-                bct.distance_wei(arg("distance_wei")())[0]
+            if job["src"] in ("breadthdist", "reachdist"):
+                Din = getattr(bct, job["src"])(arg(job["src"])())[1]
+            else:
+                Din = bct.distance_bin(arg("distance_bin")()) if job["src"] == "distance_bin" else \
+                    bct.distance_wei(arg("distance_wei")())[0]
             # options: include_diagonal=False is the statement's "pairs of distinct nodes";
             # include_infinite=False changes the mean only when the matrix HANDED to charpath holds
             # an inf, so it is passed (when the job asks) only for a matrix without one - there
@@ -277,6 +280,12 @@ def jobs_for(K, mode, src, rng=None, variant=rc.PLAIN):
             out.append(J(nm if nm != "distance_wei_floyd" else nm + ":none", "dist", algo=ALGO[nm]))
         out.append(J("distance_agree", "agree", routines=five))
         out.append(J("charpath", "mean", src="distance_bin", **opts()))
+        if rng is not None:
+            # the distance matrices of the other two binary routines carry the shortest CYCLE length on
+            # the diagonal (inf for a node on no cycle): with include_diagonal=False charpath must give
+            # the same means over ordered pairs of distinct nodes
+            out.append(J("charpath", "mean", src=rng.choice(["breadthdist", "reachdist"]),
+                         **dict(opts(), opt_diag=1)))
         out.append(J("efficiency_bin", "mean", opt_local_kw=(rng.choice([0, 0, 1]) if rng else 0)))
         out.append(J("efficiency_wei", "mean", opt_local_kw=(rng.choice([0, 0, "global"]) if rng else 0)))
         out.append(J("rout_efficiency:none", "mean"))
